@@ -170,13 +170,20 @@ def theorem_names(prop_id: str) -> list[str]:
     return re.findall(r'^theorem\s+(' + prop_id + r'_[A-Za-z0-9_\']+)', s, flags=re.M)
 
 
-def audit(prop_id: str) -> dict:
-    """`#print axioms` on every property theorem; returns {theorem: [axioms]}"""
+def audit(prop_id: str, extra: dict | None = None) -> dict:
+    """`#print axioms` on every property theorem (and on the foundation theorems `extra` = {module: [names]}
+    the property's model rests on); returns {theorem: [axioms]}"""
     names = theorem_names(prop_id)
-    if not names:
+    extra = extra or {}
+    if not names and not extra:
         return {}
     with tempfile.NamedTemporaryFile('w', suffix='.lean', dir=LEAN, delete=False) as fh:
-        fh.write(f'import Mahotas.Properties.{prop_id}\n')
+        if names:
+            fh.write(f'import Mahotas.Properties.{prop_id}\n')
+        for m in extra:
+            fh.write(f'import {m}\n')
+        for ns in extra.values():
+            names = names + list(ns)
         for n in names:
             fh.write(f'#print axioms {n}\n')
         tmp = fh.name
@@ -198,7 +205,7 @@ def audit(prop_id: str) -> dict:
     return out
 
 
-def lean_obligations(prop_id: str, extra_targets: list[str] | None = None) -> dict:
+def lean_obligations(prop_id: str, extra_targets: list[str] | None = None, extra_theorems: dict | None = None) -> dict:
     """translator + lake build + axiom audit for one property. Returns a dict with
     ok (bool), obligations, discharged, theorems {name: axioms}, problems [str], log."""
     res = dict(ok=True, problems=[], theorems={}, obligations=0, discharged=0, log='', generated={})
@@ -225,7 +232,7 @@ def lean_obligations(prop_id: str, extra_targets: list[str] | None = None) -> di
             res['driver_ok'] = okd
         else:
             res['driver_ok'] = True
-            ax = audit(prop_id)
+            ax = audit(prop_id, extra_theorems)
             res['theorems'] = ax
             res['obligations'] = len(ax)
             for n, axs in ax.items():
